@@ -258,6 +258,88 @@ def expand_property(repo: Repo, fi: FunctionInfo, e: ast.AST) -> ast.AST:
     return e
 
 
+def falsy_constant(e: ast.AST) -> bool:
+    """A literal that is falsy but not None: 0, 0.0, '', False, (), []."""
+    if isinstance(e, ast.Constant):
+        return e.value is not None and not e.value and not isinstance(e.value, type(Ellipsis))
+    if isinstance(e, (ast.Tuple, ast.List)) and not e.elts:
+        return True
+    return False
+
+
+def keyword_values(repo: Repo, fi: FunctionInfo, call: ast.Call, du: DefUse = None) -> Dict[str, ast.AST]:
+    """Keyword name -> value expression of a call, literal `**dict` arguments expanded through the dict's definitions in the
+    enclosing function (dict literal or dict(k=v) call; later `d[k] = v` stores override)."""
+    out = {k.arg: k.value for k in call.keywords if k.arg is not None}
+    stars = [k.value for k in call.keywords if k.arg is None]
+    owner = fi
+    for sv in stars:
+        nm = loc_name(sv)
+        if nm is None:
+            continue
+        # the dict may be defined in the function that encloses a lambda / nested def
+        cand = owner
+        while cand is not None:
+            for n in walk_function(cand.node):
+                if isinstance(n, ast.Assign) and any(loc_name(t) == nm for t in n.targets):
+                    v = n.value
+                    if isinstance(v, ast.Dict):
+                        for k, vv in zip(v.keys, v.values):
+                            if isinstance(k, ast.Constant) and isinstance(k.value, str):
+                                out.setdefault(k.value, vv)
+                    elif isinstance(v, ast.Call) and call_name(v) == "dict":
+                        for k in v.keywords:
+                            if k.arg:
+                                out.setdefault(k.arg, k.value)
+                elif isinstance(n, ast.Assign) and isinstance(n.targets[0], ast.Subscript) and loc_name(n.targets[0].value) == nm:
+                    ok, key = const_value(n.targets[0].slice)
+                    if ok and isinstance(key, str):
+                        out[key] = n.value
+            cand = cand.parent
+    return out
+
+
+def swallowed_falsy_arguments(repo: Repo, callee: FunctionInfo) -> List[Tuple[str, ast.AST, FunctionInfo, ast.Call, ast.AST]]:
+    """(parameter, `p or default` expression, caller, call, falsy literal): the callee replaces a falsy value of `p` by a default
+    (`p = p or d`) and some call site in the library binds `p` to a literal 0 / 0.0 / '' / False / () explicitly - that
+    explicit setting is silently replaced.  (`None` is the legitimate 'use the default' marker and is not reported.)"""
+    du = DefUse(callee.node)
+    params = set(callee.params)
+    sites = []
+    for n in walk_function(callee.node):
+        if isinstance(n, ast.BoolOp) and isinstance(n.op, ast.Or) and isinstance(n.values[0], ast.Name) and n.values[0].id in params:
+            p = n.values[0].id
+            ds = du.reaching(p, n)
+            if ds and all(d.kind == "param" for d in ds):
+                sites.append((p, n))
+    out = []
+    if not sites:
+        return out
+    for q, fi in repo.functions.items():
+        for c, target in repo.calls_in(fi, include_nested=False):
+            if target != callee.qualname:
+                continue
+            from .calls import bind
+            b = bind(c, callee)
+            kv = keyword_values(repo, fi, c)
+            for p, expr in sites:
+                v = b.bound.get(p) or kv.get(p)
+                if v is not None and falsy_constant(v):
+                    out.append((p, expr, fi, c, v))
+    # lambdas: `lambda dat: kfilt(dat, **k_kwargs)` is not a FunctionInfo of its own in every tree; scan them explicitly
+    for q, fi in repo.functions.items():
+        for lam in find(fi.node, ast.Lambda):
+            for c in find(lam.body, ast.Call):
+                if repo.resolve_call(fi, c) != callee.qualname:
+                    continue
+                kv = keyword_values(repo, fi, c)
+                for p, expr in sites:
+                    v = kv.get(p)
+                    if v is not None and falsy_constant(v) and not any(o[3] is c and o[0] == p for o in out):
+                        out.append((p, expr, fi, c, v))
+    return out
+
+
 def returns_of(fn_node: ast.AST) -> List[ast.Return]:
     return [n for n in walk_function(fn_node) if isinstance(n, ast.Return)]
 
@@ -294,6 +376,9 @@ def view_source(e: ast.AST) -> ast.AST:
     while True:
         if isinstance(e, ast.Call) and isinstance(e.func, ast.Attribute) and e.func.attr in VIEW_METHODS:
             e = e.func.value
+        elif isinstance(e, ast.Call) and isinstance(e.func, ast.Attribute) and e.func.attr in ALIAS_PRESERVING and e.args \
+                and isinstance(e.func.value, ast.Name) and e.func.value.id in ("np", "numpy", "gp", "cp", "cupy"):
+            e = e.args[0]  # np.asarray(x) / np.atleast_1d(x) / np.reshape(x, ..) return x itself or a view of it
         elif isinstance(e, ast.Attribute) and e.attr in ("T", "real", "imag"):
             e = e.value
         elif isinstance(e, ast.Subscript):
@@ -548,3 +633,34 @@ def buffer_roots(repo: Repo, fi: FunctionInfo, du: DefUse, e: ast.AST, at: ast.A
     if isinstance(b, ast.Attribute) and loc_name(b):
         return {loc_name(b)}
     return {f"fresh@{getattr(b, 'lineno', 0)}:{getattr(b, 'col_offset', 0)}"}
+
+
+def rule_no_shared_mutation(ctx, rule_id: str, functions: Sequence[str], consequence: str):
+    """Generic rule: the listed functions (and the private helpers they call that the pinned tree does not have) do not modify in place an
+    array that is cached / shared between calls (result of a memoised function, or a view / row / dict entry of one)."""
+    repo = ctx.repo
+    ctx.rule(rule_id, "no in-place operation on an array that is cached / shared between calls (memoised helper results and their views)")
+    shared = shared_returning(repo)
+    todo = [q for q in functions if repo.has_fn(q)]
+    missing = [q for q in functions if not repo.has_fn(q)]
+    if missing and not todo:
+        raise AnchorMissing(f"none of {list(functions)} found")
+    # helpers reachable from the anchored functions that are not memoised themselves (a memoised helper may build its own result in place)
+    seen = set(todo)
+    work = list(todo)
+    while work:
+        q = work.pop()
+        fi = repo.fn(q)
+        for c, tq in repo.calls_in(fi, include_nested=True):
+            if tq and tq not in seen and repo.has_fn(tq) and tq.rsplit(".", 1)[-1].startswith("_") and not is_memoised(repo.fn(tq)):
+                seen.add(tq)
+                work.append(tq)
+    for q in sorted(seen):
+        fi = repo.fn(q)
+        muts = shared_mutations(repo, fi, shared)
+        if not muts:
+            ctx.ok(fi, fi.node, f"{q.split('.')[-1]}: no in-place operation on a cached array" + (f" (memoised: {sorted(shared)})" if shared else ""),
+                   "arrays modified in place are fresh for every call", key="shared:" + q)
+        for st, tgt, why in muts:
+            ctx.violation(fi, st, st, f"{why}: `{src(st)[:70]}` changes it for every later call with the same arguments - {consequence}",
+                          key="shared:" + q + ":" + norm(tgt)[:40], name_free=True)
